@@ -16,6 +16,7 @@ CONSTANTS
   MaxFaults = 1
   MaxStops = 1
   MaxExpire = 1
+  IgnoredStarts = TRUE
   LateRace = FALSE
 VIEW view
 ACTION_CONSTRAINT GenLog
